@@ -112,6 +112,18 @@ def reads_measured_bits(w):
     return any(("M" not in o) and o.get("cc") and (set(o["cc"]) & written) for o in w["ops"])
 
 
+def reads_earlier_written_bit(w):
+    """some gate is conditioned on a bit that an EARLIER measurement of the circuit writes"""
+    written = set()
+    for o in w["ops"]:
+        if "M" in o:
+            if o.get("store") is not None:
+                written.add(o["store"])
+        elif o.get("cc") and (set(o["cc"]) & written):
+            return True
+    return False
+
+
 def has_big_ccv(w):
     return any(("M" not in o) and o.get("cc") is not None and not (0 <= o["ccv"] < 2 ** len(o["cc"]))
                for o in w["ops"])
@@ -212,7 +224,13 @@ def _oracle(w):
     if which in ("all", "dm"):
         sim = CircuitSimulator(qc, mode="density_matrix_simulator")
         arg = None if cb0 is None else list(cb0)
-        r = sim.run(qutip.ket2dm(ket), cbits=arg)
+        try:
+            r = sim.run(qutip.ket2dm(ket), cbits=arg)
+        except NotImplementedError as e:
+            if reads_earlier_written_bit(w):
+                # "correct or refuse": feed-forward is refused in density-matrix mode (fix C02-3)
+                return False, f"{len(live)} live branches agree; density-matrix feed-forward refused: {str(e)[:60]}"
+            return True, "density-matrix run of a circuit without feed-forward raised NotImplementedError"
         mix = sum(np.outer(b[2], b[2].conj()) for b in live)
         if not np.allclose(r.get_final_states(0).full(), mix, atol=tol):
             return True, "density-matrix run differs from the probability-weighted mixture of the branches"
@@ -294,6 +312,7 @@ class C02(PropertyCheck):
         "QipVerif.C02.stat_eq_branches",
         "QipVerif.C02.cbits_reported",
         "QipVerif.C02.dm_eq_mixture_partial",
+        "QipVerif.C02.dm_mixture_or_refuse",
         "QipVerif.C02.C02_counterexample_ccv_out_of_range",
         "QipVerif.C02.C02_counterexample_cbits_alias",
         "QipVerif.C02.C02_counterexample_dm_feedforward",
